@@ -34,13 +34,49 @@ Section Value.
     match pend with Some o => ev_un o (eval rho fn x) | None => eval rho fn x end.
   Proof. destruct pend; reflexivity. Qed.
 
-  Lemma rs_value : forall (e : sexpr) (pend : option sym), sign_ok pend ->
-    eval rho fn (rs pend e) = eval rho fn (wrap pend (strip e)).
+  Lemma wrap_congr : forall pend x y,
+    eval rho fn x = eval rho fn y -> eval rho fn (wrap pend x) = eval rho fn (wrap pend y).
+  Proof. intros pend x y H. rewrite !eval_wrap. rewrite H. reflexivity. Qed.
+
+  Lemma eval_if_congr : forall (c c' t t' e e' : expr) (cs cs' bs bs' : list expr),
+    eval rho fn c = eval rho fn c' -> eval rho fn t = eval rho fn t' -> eval rho fn e = eval rho fn e' ->
+    map (eval rho fn) cs = map (eval rho fn) cs' -> map (eval rho fn) bs = map (eval rho fn) bs' ->
+    eval rho fn (IfE (c :: cs) (t :: bs ++ [e])) = eval rho fn (IfE (c' :: cs') (t' :: bs' ++ [e'])).
   Proof.
-    induction e as [a | e IHe | o e IHe | m l IHl r IHr | c IHc t IHt e IHe]; intros pend Hp.
+    intros c c' t t' e e' cs cs' bs bs' Hc Ht He Hcs Hbs.
+    change (ev_if (map (eval rho fn) (c :: cs)) (map (eval rho fn) (t :: bs ++ [e]))
+            = ev_if (map (eval rho fn) (c' :: cs')) (map (eval rho fn) (t' :: bs' ++ [e']))).
+    rewrite !map_cons, !map_app, !map_cons. cbn [map].
+    rewrite Hc, Ht, He, Hcs, Hbs. reflexivity.
+  Qed.
+
+  Lemma eval_call_congr : forall f (l l' : list expr),
+    map (eval rho fn) l = map (eval rho fn) l' -> eval rho fn (Call f l) = eval rho fn (Call f l').
+  Proof.
+    intros f l l' H.
+    change (fn f (map (eval rho fn) l) = fn f (map (eval rho fn) l')). rewrite H. reflexivity.
+  Qed.
+
+  Lemma map_eval_ext : forall (A : Type) (f g : A -> expr) (l : list A),
+    Forall (fun x => eval rho fn (f x) = eval rho fn (g x)) l ->
+    map (eval rho fn) (map f l) = map (eval rho fn) (map g l).
+  Proof.
+    intros A f g l H. induction H as [| x l Hx Hl IH].
+    - reflexivity.
+    - cbn [map]. rewrite Hx, IH. reflexivity.
+  Qed.
+
+  Definition rs_ok (e : sexpr) : Prop :=
+    forall pend : option sym, sign_ok pend ->
+    eval rho fn (rs pend e) = eval rho fn (wrap pend (strip e)).
+
+  Lemma rs_value : forall (e : sexpr), rs_ok e.
+  Proof.
+    intro e. induction e as [a | e IHe | o e IHe | m l r IHl IHr | c t el e IHc IHt IHel IHe | f args IHargs]
+      using sexpr_ind'; intros pend Hp.
     - reflexivity.
     - assert (H0 : eval rho fn (rs None e) = eval rho fn (strip e)) by exact (IHe None I).
-      simpl rs; simpl strip. rewrite !eval_wrap. rewrite H0. reflexivity.
+      simpl rs; simpl strip. apply wrap_congr. exact H0.
     - simpl rs; simpl strip. rewrite !eval_wrap.
       destruct (is_sign o) eqn:Ho.
       + assert (H1 : eval rho fn (rs (Some o) e) = ev_un o (eval rho fn (strip e)))
@@ -57,10 +93,17 @@ Section Value.
         * reflexivity.
       + assert (Hl : eval rho fn (rs None l) = eval rho fn (strip l)) by exact (IHl None I).
         rewrite !eval_wrap. simpl eval. rewrite Hl, Hr. reflexivity.
-    - assert (Hc : eval rho fn (rs None c) = eval rho fn (strip c)) by exact (IHc None I).
-      assert (Ht : eval rho fn (rs None t) = eval rho fn (strip t)) by exact (IHt None I).
-      assert (He : eval rho fn (rs None e) = eval rho fn (strip e)) by exact (IHe None I).
-      simpl rs; simpl strip. rewrite !eval_wrap. simpl eval. rewrite Hc, Ht, He. reflexivity.
+    - simpl rs; simpl strip. apply wrap_congr. apply eval_if_congr.
+      + exact (IHc None I).
+      + exact (IHt None I).
+      + exact (IHe None I).
+      + apply map_eval_ext. eapply Forall_impl; [| exact IHel].
+        intros [c' b'] [H1 H2]. exact (H1 None I).
+      + apply map_eval_ext. eapply Forall_impl; [| exact IHel].
+        intros [c' b'] [H1 H2]. exact (H2 None I).
+    - simpl rs; simpl strip. apply wrap_congr. apply eval_call_congr.
+      apply map_eval_ext. eapply Forall_impl; [| exact IHargs].
+      intros x Hx. exact (Hx None I).
   Qed.
 
   Theorem value_resign : forall e : sexpr, eval rho fn (resign e) = eval rho fn (strip e).
@@ -228,6 +271,103 @@ Proof.
   exists esc_witness. intro H. vm_compute in H. discriminate H.
 Qed.
 
+(* has_escape raw: raw contains a backslash followed by a character that `unescape` recognises
+   (same case split as decode: scanning never skips a character before it answers true) *)
+Fixpoint has_escape (s : string) : bool :=
+  match s with
+  | String.EmptyString => false
+  | String.String c r =>
+      if is_bs c then
+        match r with
+        | String.EmptyString => false
+        | String.String d _ =>
+            match unescape d with
+            | Some _ => true
+            | None => has_escape r
+            end
+        end
+      else has_escape r
+  end.
+
+(* decoding never lengthens the text, and shortens it as soon as there is one escape sequence *)
+Lemma decode_len : forall n s, String.length s <= n ->
+  String.length (decode s) <= String.length s
+  /\ (has_escape s = true -> String.length (decode s) < String.length s).
+Proof.
+  induction n as [| n IHn]; intros s Hn.
+  - destruct s as [| c r]; cbn [String.length] in Hn; [| lia].
+    cbn. split; [lia | discriminate].
+  - destruct s as [| c r].
+    + cbn. split; [lia | discriminate].
+    + cbn [String.length] in Hn. cbn [decode has_escape].
+      destruct (is_bs c).
+      * destruct r as [| d r'].
+        { cbn. split; [lia | discriminate]. }
+        destruct (unescape d) as [x |].
+        { cbn [String.length] in Hn |- *.
+          destruct (IHn r') as [H1 _]; [lia |].
+          split; [lia | intros _; lia]. }
+        { destruct (IHn (String.String d r')) as [H1 H2]; [cbn [String.length] in Hn |- *; lia |].
+          cbn [String.length] in *.
+          split; [lia | intro H; specialize (H2 H); lia]. }
+      * destruct (IHn r) as [H1 H2]; [lia |].
+        cbn [String.length].
+        split; [lia | intro H; specialize (H2 H); lia].
+Qed.
+
+Theorem decode_length_le : forall s, String.length (decode s) <= String.length s.
+Proof. intro s. exact (proj1 (decode_len (String.length s) s (le_n _))). Qed.
+
+Theorem decode_length_lt : forall s,
+  has_escape s = true -> String.length (decode s) < String.length s.
+Proof. intro s. exact (proj2 (decode_len (String.length s) s (le_n _))). Qed.
+
+(* universal refutation: every string body that contains an escape sequence gets the wrong value *)
+Theorem string_escape_always_wrong : forall raw,
+  has_escape raw = true -> str_value raw <> VStr (decode raw).
+Proof.
+  intros raw H E. unfold str_value in E. injection E as E'.
+  pose proof (decode_length_lt raw H) as HL.
+  apply (f_equal String.length) in E'. lia.
+Qed.
+
+Lemma has_escape_not_free : forall s, has_escape s = true -> escape_free s = false.
+Proof.
+  induction s as [| c r IH]; intro H.
+  - discriminate H.
+  - cbn [has_escape] in H. cbn [escape_free]. destruct (is_bs c); [reflexivity |].
+    cbn. exact (IH H).
+Qed.
+
+(* ---- the table-driven listener (T2): with the standard table it is num_value / str_value ---- *)
+Lemma listener_ok_std : forall lt, listener_ok lt = true -> lt = std_lt.
+Proof.
+  intros lt H. unfold listener_ok in H.
+  destruct (ltable_eq_dec lt std_lt) as [E | _]; [exact E | discriminate H].
+Qed.
+
+Theorem num_value_lt_std : forall lt n, listener_ok lt = true -> num_value_lt lt n = num_value n.
+Proof. intros lt n H. apply listener_ok_std in H. subst lt. reflexivity. Qed.
+
+Theorem str_value_lt_std : forall lt raw, listener_ok lt = true -> str_value_lt lt raw = str_value raw.
+Proof. intros lt raw H. apply listener_ok_std in H. subst lt. reflexivity. Qed.
+
+(* exactly what the code does: the raw body between the quotes *)
+Theorem string_raw : forall lt raw, listener_ok lt = true -> str_value_lt lt raw = VStr raw.
+Proof. intros lt raw H. rewrite (str_value_lt_std lt raw H). reflexivity. Qed.
+
+Theorem literal_int_lt : forall lt ds, listener_ok lt = true ->
+  num_value_lt lt (mkNum ds None None) = VInt (posval ds).
+Proof. intros lt ds H. rewrite (num_value_lt_std lt _ H). apply literal_int. Qed.
+
+Theorem literal_real_lt : forall lt ip fr ex, listener_ok lt = true -> (fr <> None \/ ex <> None) ->
+  exists q, num_value_lt lt (mkNum ip fr ex) = VReal q /\ Qeq q (dec_value ip fr ex).
+Proof. intros lt ip fr ex H H0. rewrite (num_value_lt_std lt _ H). apply literal_real. exact H0. Qed.
+
+Theorem string_escape_always_wrong_lt : forall lt raw, listener_ok lt = true ->
+  has_escape raw = true -> str_value_lt lt raw <> VStr (decode raw).
+Proof. intros lt raw H. rewrite (str_value_lt_std lt raw H). apply string_escape_always_wrong. Qed.
+
 (* sanity: the decoder on the witness and on  x \ n \ \ \ q  *)
 Example decode_witness :
   decode esc_witness
@@ -249,3 +389,11 @@ Print Assumptions literal_int.
 Print Assumptions literal_real.
 Print Assumptions string_escape_free.
 Print Assumptions string_escape_refuted.
+Print Assumptions string_escape_always_wrong.
+Print Assumptions decode_length_le.
+Print Assumptions num_value_lt_std.
+Print Assumptions str_value_lt_std.
+Print Assumptions string_raw.
+Print Assumptions literal_int_lt.
+Print Assumptions literal_real_lt.
+Print Assumptions string_escape_always_wrong_lt.
